@@ -178,6 +178,10 @@ def gen_cases(rng, tier):
         for cl, ctx in CONTEXTS:
             cases.append({"kind": "hostile" if refused else "benign", "shape": label, "ctx": cl,
                           "src": ctx.replace("{H}", "(" + src + ")"), "refused": refused})
+    # every refused shape also through make_selector(text) after make_selector(text, force_compiled=True)
+    for label, src, refused in SHAPES:
+        if refused and "{TRIP}" not in src:
+            cases.append({"kind": "hostile", "shape": label, "ctx": "bare", "src": "(" + src + ")", "refused": True, "via_make": True})
     # the benign shapes once more on a GROUPED record (fields resolve through the group's members)
     for label, src, refused in BENIGN:
         if label.startswith("ok:self") or "fields" in label:
@@ -367,6 +371,28 @@ def run_real(case):
             res = {"value": _canon_value(SA.value_json(v))}
         except Exception as e:
             res = {"error": type(e).__name__, "msg": str(e)[:140]}
+        n_helpers_first = len(helper_log)
+        # the same Selector object once more (a consumer that caught the refusal and goes on to the next record): the
+        # verdict about the EXPRESSION does not change
+        try:
+            s.match(rec)
+            res["second"] = "value"
+        except Exception as e:          # noqa: BLE001
+            res["second"] = type(e).__name__
+        if case.get("via_make"):
+            # the expression text handed to make_selector() after some other part of the process asked for the compiled
+            # engine with the same text: text means the sandboxed interpreter
+            try:
+                sel.make_selector(src, True)
+            except Exception:          # noqa: BLE001
+                pass
+            try:
+                ms = sel.make_selector(src)
+                res["make_class"] = type(ms).__name__
+                ms.match(rec)
+                res["make"] = "value"
+            except Exception as e:          # noqa: BLE001
+                res["make"] = type(e).__name__
     finally:
         sel.FUNCTION_WHITELIST = saved
     res["direct"] = direct_invocations(log)
@@ -375,7 +401,7 @@ def run_real(case):
     res["canary_events"] = len(log)
     # permitted invocations that reached a canary (str / repr / iteration, a str method called from a helper)
     res["effects"] = [ev for ev in log if ev[0] in ("str", "repr", "iter", "strmethod")]
-    res["helpers"] = helper_log
+    res["helpers"] = helper_log[:n_helpers_first]
     res["tripwire"] = os.path.exists(trip)
     res["record_changed"] = [_snapshot(inner), sorted(getattr(rec, "__dict__", {}))] != before
     try:
@@ -415,6 +441,12 @@ def oracle(case, obs):
             and "error" not in obs and obs.get("value") != ["missing"]:
         return (f"`{case['src']}`: a name with one leading underscore and a dunder tail resolved to {obs.get('value')} "
                 f"instead of the missing-field sentinel (an alias reaching the record's dunder attributes)")
+    if case["refused"] and "error" in obs and obs.get("second") == "value":
+        return (f"`{case['src']}`: refused on the first match() of a Selector object, evaluated without error on the second "
+                f"match() of the same object")
+    if case["refused"] and obs.get("make") == "value":
+        return (f"`{case['src']}`: make_selector(text) hands out a {obs.get('make_class')} that evaluates the refused shape "
+                f"({case['shape']}) after the compiled engine was requested for the same text")
     if case["refused"] and "error" not in obs:
         return f"`{case['src']}`: a refused shape ({case['shape']}) evaluated to {obs.get('value')} without error"
     return None
